@@ -298,9 +298,24 @@ def gen_history(rng):
             if multi_at == i:
                 p0 = v.pos + 1 + len(v.ref) + 3
                 skipped_record(p0, sc.ref[c][p0 - 1], "multi")
+    # a chromosome on which nothing can be phased (empty variant table) but whose calls carry earlier phasing
+    unusable = None
+    if rng.random() < 0.3:
+        kind = rng.choice(vcfgen.UNUSABLE_KINDS)
+        ci = rng.randrange(len(sc.chroms))
+        where = "only" if len(sc.chroms) == 1 else "first" if ci == 0 else "last" if ci == len(sc.chroms) - 1 else "middle"
+        enc = "PS" if pre in ("PS", "PSSLASH", "PIPE") else "HP" if pre in ("HP", "HPQ") else rng.choice(["PS", "HP"])
+        state = rng.getstate()
+        vcfgen.make_unusable_chromosome(rng, base, sc.chroms[ci], kind, None)
+        rng.setstate(state)
+        vcfgen.make_unusable_chromosome(rng, start, sc.chroms[ci], kind, enc)
+        for rb, rs in zip(base.rows, start.rows):          # same records in both files
+            rb[3], rb[4] = rs[3], rs[4]
+        unusable = [kind, where, enc]
+        shapes.append("unusable_chromosome." + ".".join(unusable))
     # VcfReader rejects any file that mixes the two encodings, also between samples; since each phase step is
     # run with both tags, a --sample selection is only drawn while the other samples carry no phase at all
-    carries = {s: pre is not None for s in sc.samples}
+    carries = {s: pre is not None or unusable is not None for s in sc.samples}
     steps = []
     for _ in range(rng.randint(1, 4)):
         kind = rng.choice(["PS", "HP", "PS", "HP", "unphase"])
@@ -312,7 +327,7 @@ def gen_history(rng):
                 if not any(carries[s] for s in sc.samples if s not in sel):
                     st["samples"] = sel
             st["distrust"] = rng.random() < 0.2
-            st["only_snvs"] = rng.random() < 0.15
+            st["only_snvs"] = rng.random() < (0.6 if unusable and unusable[0] == "all_indel_only_snvs" else 0.15)
             st["ped"] = trio if ped and rng.random() < 0.8 else None
             st["algorithm"] = "heuristic" if not st["ped"] and rng.random() < 0.1 else "whatshap"
             st["reinput"] = rng.random() < 0.5
